@@ -4,6 +4,7 @@
    character.  NOT proved: that the listed tokens lex back to the same tokens / the same AST (the fixed-point and
    same-meaning halves).  Those are decided by the C05 monitor on the implementation: exhaustively for all strings over
    the 25-symbol lexical alphabet up to the tier's length, and on generated lines. *)
+From Coq Require Import String.
 From BL Require Import Base.Prelude Lang.Token Lang.Lex Mach.Listing Proofs.DecN Proofs.ListNumber.
 Local Open Scope N_scope.
 
@@ -34,3 +35,37 @@ Print Assumptions C05_line_number_prefix.
 Theorem C05_decimal_reads_back : forall n, parse_udec (dec_of_N n) = Some n.
 Proof. exact parse_dec_of_N. Qed.
 Print Assumptions C05_decimal_reads_back.
+
+(* ---- remark lines (Proofs/RemarkText.v) ---- *)
+From BL Require Import Mach.Func Proofs.RemarkText.
+
+(* a line that is a remark written with ': entered and listed, it is the same text with the trailing blanks removed --
+   whatever the text contains (quotes, colons, reserved words, lower case, any code points) *)
+Theorem C05_apostrophe_remark_is_kept : forall n body, n <= 65529 ->
+  relist (dec_of_N n ++ 32 :: 39 :: body) = Some (dec_of_N n ++ 32 :: 39 :: trim_end body).
+Proof. exact apostrophe_line_is_kept. Qed.
+Print Assumptions C05_apostrophe_remark_is_kept.
+
+(* ... and that listing, entered again, lists identically *)
+Theorem C05_apostrophe_listing_is_a_fixed_point : forall n body, n <= 65529 ->
+  forall t, relist (dec_of_N n ++ 32 :: 39 :: body) = Some t -> relist t = Some t.
+Proof. exact apostrophe_listing_is_a_fixed_point. Qed.
+Print Assumptions C05_apostrophe_listing_is_a_fixed_point.
+
+(* the same for REM followed by a character that cannot continue a word (a blank, a colon, a quote ...); text glued to REM
+   is the recorded open finding of this property and is excluded by the premise *)
+Theorem C05_rem_remark_is_kept : forall n c body, n <= 65529 -> ends_word c = true ->
+  relist (dec_of_N n ++ 32 :: 82 :: 69 :: 77 :: c :: body) = Some (dec_of_N n ++ 32 :: 82 :: 69 :: 77 :: trim_end (c :: body)).
+Proof. exact rem_line_is_kept. Qed.
+Print Assumptions C05_rem_remark_is_kept.
+
+Theorem C05_rem_listing_is_a_fixed_point : forall n c body, n <= 65529 -> ends_word c = true ->
+  forall t, relist (dec_of_N n ++ 32 :: 82 :: 69 :: 77 :: c :: body) = Some t -> relist t = Some t.
+Proof. exact rem_listing_is_a_fixed_point. Qed.
+Print Assumptions C05_rem_listing_is_a_fixed_point.
+
+Example C05_remark_demo :
+  relist (s2l "20 '" ++ remark_demo) = Some (s2l "20 'x: ""PRINT"" goto 10 " ++ [233; 26085])
+  /\ relist (s2l "20 REM " ++ remark_demo) = Some (s2l "20 REM x: ""PRINT"" goto 10 " ++ [233; 26085])
+  /\ ends_word 32 = true /\ ends_word 58 = true /\ ends_word 34 = true.
+Proof. exact remark_demo_kept. Qed.
